@@ -17,6 +17,7 @@ import shutil
 import subprocess
 import sys
 import tempfile
+import threading
 import time
 from concurrent.futures import ThreadPoolExecutor
 
@@ -89,6 +90,7 @@ class Ctx:
         self.samples = []
         self.violations = []  # dicts: sig, detail, case(driver, request)
         self.leads = []
+        self._drvlock = threading.Lock()
         self.deferred = []  # machinery failures that did not stop the run: exit 2 unless a real-code violation was reproduced
         self.notes = []
         self.assumptions = []
@@ -99,9 +101,10 @@ class Ctx:
 
     # ---- tools ------------------------------------------------------------------------------------
     def driver(self):
-        if self.drv is None:
-            self.drv, dt = build_driver(self.scratch("build"))
-            self.notes.append("driver rebuilt from %s in %.1fs" % (REPO_GO, dt))
+        with self._drvlock:
+            if self.drv is None:
+                self.drv, dt = build_driver(self.scratch("build"))
+                self.notes.append("driver rebuilt from %s in %.1fs" % (REPO_GO, dt))
         return self.drv
 
     def scratch(self, name):
@@ -283,6 +286,15 @@ class Ctx:
             if driver and "driver" not in v:
                 v["driver"] = driver
             self.violations.append(v)
+
+    def foreign(self, filt=(), instances=("testdata",), k=1):
+        """Guard against prover-supplied values the specification has no game for (drivers/foreign.go): hint sites other than the chip's four
+        (or SplitLimbsHint outside the canonical range check) inside the named code region; generic alternatives are substituted at each."""
+        for inst in instances:
+            r = self.run_driver("foreign", {"prop": self.pid, "instance": inst, "k": k, "filter": list(filt)}, tag="foreign-" + inst, timeout=1800)
+            self.absorb(r, "foreign")
+            n = (r.get("info") or {}).get("foreign_sites")
+            self.notes.append("prover-supplied values outside GlGadgets' four hints in %s (%s): %s site(s)" % ("/".join(filt) or "the whole verifier", inst, n))
 
     def absorb_beyond(self, r, module):
         """A replay that belongs to a specification module beyond the listed properties: its mismatches are leads, its
